@@ -284,7 +284,7 @@ class Histories(Suite):
                 yield dict(case, handles=case["handles"][:i] + case["handles"][i + 1:])
 
     def sweep(self):
-        """all histories of length <= 4 over 2 triples x 2 graphs of one Memory store (plus -=, +=, wildcard removes)"""
+        """all histories of length <= 3 (and those of length 4 that start with an add) over 2 triples x 2 graphs of one Memory store, incl. -=, +=, set and wildcard removes"""
         g1, g2 = [0, 1, 1], [0, 2, 2]
         ts = [[1, 3, 5], [1, 3, 6]]
         alphabet = []
@@ -299,6 +299,8 @@ class Histories(Suite):
         alphabet.append(["set", g2, [1, 3, 6]])
         for n in (1, 2, 3, 4):
             for seq in itertools.product(alphabet, repeat=n):
+                if n == 4 and seq[0][0] != "add":
+                    continue
                 yield {"k0": False, "k1": False, "handles": [g1, g2],
                        "ops": [[list(o), [1, 3, 5]] for o in seq]}
 
